@@ -285,6 +285,18 @@ def run(tier):
             continue
         cases.append((seq, wf, chem_ctx[n_el % len(chem_ctx)], {}, ELEMENTS))
         n_el += 1
+    # ... and, exhaustively, every row of two or three of the operators that may be bonds (- = : U+2261, in the dictionary: 280, 260,
+    # 260/..., 260) between element-like operands and nothing else - the first parse adds no row for them, so nothing is "removed"
+    # when the marks are taken off
+    import itertools
+    bonds = [b_ for b_ in ("-", "=", ":", "\u2261") if b_ in D]
+    for n_ops in (2, 3):
+        for ops_ in itertools.product(bonds, repeat=n_ops):
+            seq = ["a"]
+            for o_ in ops_:
+                seq += [o_, "a"]
+            for cx in chem_ctx:
+                cases.append((seq, True, cx, {}, ELEMENTS))
     scripts = []
     for b in range(0, len(cases), 400):
         ops = [{"op": "set_rules_dir", "dir": "$RULES", "setup": True}, {"op": "events_on", "setup": True}]
